@@ -33,7 +33,7 @@ def prop(pid, level, rule, sizes, technique, level_text, level_note, assumptions
         d["tsan"] = {"quick": {"shards": n, "budget": max(1, q["budget"] // 2)}, "thorough": {"shards": 2 * n, "budget": q["budget"]}}
     if isinstance(d.get("miri"), int):
         n = d["miri"]
-        d["miri"] = {"thorough": {"shards": n, "budget": max(1, q["budget"] // 100), "time_cap": 240}}
+        d["miri"] = {"thorough": {"shards": n, "budget": d.get("miri_budget", max(1, q["budget"] // 100)), "time_cap": 240}}
     PROPS[pid] = d
     MANIFEST_TEXT[pid] = dict(technique=technique, level_text=level_text, level_note=level_note)
 
@@ -64,7 +64,7 @@ prop(
 
 prop(
     "C15", "exploration",
-    miri=8,
+    miri=8, miri_budget=400,
     rule="one evaluation = one request built by the real builders (build_prove_request_content / _from_genesis / sample_blocks) or emitted by the client in a world scenario, judged clause by clause against ground truth; "
          "a cell = (builder branch, gap class relative to last-N, last-N, difficulty magnitude class, direction)",
     sizes=tiers(16, 24000, 60, 16, 400000, 900, min_evals=20000, min_cells=30),
